@@ -5,9 +5,11 @@ pub mod broker_run;
 pub mod c05;
 pub mod c09;
 pub mod c15;
+pub mod c20;
 pub mod crc;
 pub mod fakeredis;
 pub mod prng;
 pub mod report;
 pub mod resp_ref;
 pub mod sim;
+pub mod syssim;
